@@ -75,9 +75,12 @@ def gen_import_case(r):
             imports.append("use %s except (%s)" % (usepath, ", ".join(xs)))
             vis = [n for n in names if n not in xs]
         else:
-            pfx = "p" + lib
+            # the prefix is a name of the importing file like any other: it may collide with a
+            # function of the file, with an imported name or with another prefix
+            pfx = "p" + lib if r.chance(60) else r.choice(POOL + ["pshared"])
             imports.append("use %s as %s" % (usepath, pfx))
             prefixes.append((pfx, lib))
+            visible.setdefault(pfx, []).append("as:" + lib)
             vis = []
         for n in vis:
             visible.setdefault(n, []).append(lib)
@@ -90,7 +93,7 @@ def gen_import_case(r):
         head.append('fn main_shade(s: Shade) -> string {\n  match s {\n    Shade.Light -> "main.light"\n    Shade.Dark -> "main.dark"\n  }\n}')
     body, expect = [], []
     for n in POOL:
-        if n in visible:
+        if n in visible and not visible[n][0].startswith("as:"):
             body.append("println(%s())" % n)
             expect.append("%s.%s" % (visible[n][0], n))
     if "Shade" in visible and not clashes:
